@@ -3,6 +3,7 @@ import Swat4.Lemmas.LockFencing
 import Swat4.Gen.Facts
 import Swat4.Lemmas.StoreSpecRefine
 import Swat4.Lemmas.ListingTotal
+import Swat4.Lemmas.UseCaseKeyPres
 /-!
 # C09 — Concurrent registry writers never lose an update, readers never fail
 
@@ -620,3 +621,90 @@ example :
 
 end Swat4.C09
 
+
+/-! # Additions (review round 3): `KeyPreserving` for the resolvers of all use cases
+
+`facts_lock_key` compares the *spelling* `svr.Addr.String()` of the lock key and of the keys of the batch across different
+`svr` bindings; what makes the lock of the caller's address protect the record the batch writes is that the conflict callback
+returns a record **of the address it was given** — the hypothesis `KeyPreserving` (`Init.resAP`) of every theorem above,
+which so far was discharged only for the witnesses' resolver `keep`.  Here it is proved for every registry write any of the
+modelled use cases can issue. -/
+namespace Swat4.C09
+open Swat4 Swat4.UC Std
+
+/-- **the conflict callbacks of all use cases return a record of the address they were given** (`AddrPreserving`) — for
+every `Add` / `Update` / `Update`-with-clock / `Remove` call that the program tree of the use case can issue, whatever the
+replies of the earlier calls: heartbeat report (`Add` with `reported`, port-discovery `Update`), keepalive, probe
+success / retry / failure (`Update` with `handleSuccess` at the commit's clock value, `handleRetry`, `handleFailure`), REST
+submission (create / discover), refresh, revival, instance cleanup, listing — from C13's walk `usecases_callbacks_stable`
+("keeps address and version") — and removal (`fun s => some s`) and the two server cleaners (`cleanResolver`: refuse, or the
+record as it is), whose `Remove` callbacks C13 does not look at. -/
+theorem usecases_resolvers_addr_preserving :
+    (∀ z m req, KeyPres.ProgAddrPreserving (UC.report z m req)) ∧
+    (∀ i ip, KeyPres.ProgAddrPreserving (UC.renew i ip)) ∧
+    (∀ prb outcome, KeyPres.ProgAddrPreserving (UC.probe prb outcome)) ∧
+    (∀ z m a, KeyPres.ProgAddrPreserving (UC.addServer z m a)) ∧
+    (∀ m d, KeyPres.ProgAddrPreserving (UC.refresh m d)) ∧
+    (∀ m a b c d e f, KeyPres.ProgAddrPreserving (UC.revive m a b c d e f)) ∧
+    (∀ ret, KeyPres.ProgAddrPreserving (cleanInstances ret)) ∧
+    (∀ l st, KeyPres.ProgAddrPreserving (listServers l st)) ∧
+    (∀ i a, KeyPres.ProgAddrPreserving (UC.remove i a)) ∧
+    (∀ ret, KeyPres.ProgAddrPreserving (cleanServers ret)) ∧
+    (∀ ret, KeyPres.ProgAddrPreserving (cleanServers2 ret)) :=
+  ⟨fun z m req => KeyPres.of_progStable (VerMono.report_stable z m req),
+   fun i ip => KeyPres.of_progStable (VerMono.renew_stable i ip),
+   fun prb o => KeyPres.of_progStable (VerMono.probe_stable prb o),
+   fun z m a => KeyPres.of_progStable (VerMono.addServer_stable z m a),
+   fun m d => KeyPres.of_progStable (VerMono.refresh_stable m d),
+   fun m a b c d e f => KeyPres.of_progStable (VerMono.revive_stable m a b c d e f),
+   fun ret => KeyPres.of_progStable (VerMono.cleanInstances_stable ret),
+   fun l st => KeyPres.of_progStable (VerMono.listServers_stable l st),
+   KeyPres.remove_addr, KeyPres.cleanServers_addr, KeyPres.cleanServers2_addr⟩
+
+/-- **`usecases_resolvers_key_preserving`** — the hypothesis `KeyPreserving` of the C09 theorems holds for the registry
+write (`KeyPres.wop?`: kind, caller's record, callback — at any clock value for a clock-reading callback) of **every** call
+of **every** use case as modelled: report, keepalive (renew), probe (success / retry / failure), REST submission (create /
+discover), refresh, revival, instance cleanup, listing, removal, and both server cleaners. -/
+theorem usecases_resolvers_key_preserving :
+    (∀ z m req, KeyPres.ProgKeyPreserving (UC.report z m req)) ∧
+    (∀ i ip, KeyPres.ProgKeyPreserving (UC.renew i ip)) ∧
+    (∀ prb outcome, KeyPres.ProgKeyPreserving (UC.probe prb outcome)) ∧
+    (∀ z m a, KeyPres.ProgKeyPreserving (UC.addServer z m a)) ∧
+    (∀ m d, KeyPres.ProgKeyPreserving (UC.refresh m d)) ∧
+    (∀ m a b c d e f, KeyPres.ProgKeyPreserving (UC.revive m a b c d e f)) ∧
+    (∀ ret, KeyPres.ProgKeyPreserving (cleanInstances ret)) ∧
+    (∀ l st, KeyPres.ProgKeyPreserving (listServers l st)) ∧
+    (∀ i a, KeyPres.ProgKeyPreserving (UC.remove i a)) ∧
+    (∀ ret, KeyPres.ProgKeyPreserving (cleanServers ret)) ∧
+    (∀ ret, KeyPres.ProgKeyPreserving (cleanServers2 ret)) := by
+  obtain ⟨h1, h2, h3, h4, h5, h6, h7, h8, h9, h10, h11⟩ := usecases_resolvers_addr_preserving
+  exact ⟨fun z m req => (h1 z m req).key, fun i ip => (h2 i ip).key, fun p o => (h3 p o).key, fun z m a => (h4 z m a).key,
+    fun m d => (h5 m d).key, fun m a b c d e f => (h6 m a b c d e f).key, fun r => (h7 r).key, fun l st => (h8 l st).key,
+    fun i a => (h9 i a).key, fun r => (h10 r).key, fun r => (h11 r).key⟩
+
+/-- … which is `Init.resAP`: a system whose writer clients each perform the registry write of a key-preserving call (every
+call of every use case is one) satisfies the resolver clause of `Init` -/
+theorem resAP_of_calls (s : Sys)
+    (h : ∀ (i : Nat) (w : Writer), s.clients[i]? = some (.writer w) →
+      ∃ (β : Type) (c : Call β) (t : Int), KeyPres.CallKeyPreserving c ∧ KeyPres.wop? c t = some w.op) :
+    ∀ (i : Nat) (w : Writer), s.clients[i]? = some (.writer w) → KeyPreserving w.op := by
+  intro i w hc
+  obtain ⟨β, c, t, hk, hop⟩ := h i w hc
+  exact hk t w.op hop
+
+/-- the first call of a program that satisfies `ProgKeyPreserving` is key-preserving, and so is everything after any reply -/
+theorem progKeyPreserving_call {α β : Type} (c : Call β) (k : β → Prog α) (h : KeyPres.ProgKeyPreserving (.call c k)) :
+    KeyPres.CallKeyPreserving c ∧ ∀ b, KeyPres.ProgKeyPreserving (k b) := by
+  cases h with
+  | call _ _ hc hk => exact ⟨hc, hk⟩
+
+/-- non-vacuity: the removal use case does reach its `Remove` (record found, instance found, same IP), and that call's write
+is the `WOp` `⟨remove, svr, fun s => some s⟩`, which is key-preserving by the theorem -/
+example (svr : Server) : KeyPreserving ⟨.remove, svr, fun s => some s⟩ :=
+  (KeyPres.CallAddrPreserving.key (c := Call.removeServer svr fun s => some s) KeyPres.idResolver_addr) 0 _ rfl
+
+/-- the predicate is not vacuous: a callback that answers with a record of another address is not key-preserving -/
+example : ¬ KeyPreserving ⟨.update, Example.svr, fun _ => some Example.svrB⟩ :=
+  KeyPres.not_keyPreserving_witness _ _ (by simp [Example.svr, Example.svrB, Addr.key])
+
+end Swat4.C09
